@@ -26,12 +26,13 @@ def gen_value(rng, typ, nulls=True):
     if nulls and rng.random() < 0.15:
         return None
     if typ == 'integer':
-        return rng.choice([0, 1, -1, 2, 3, 7, 10, 2 ** 53 + 1, -5, 100])
+        # -1/-2 and 0/2**61-1 are distinct values with equal Python hashes
+        return rng.choice([0, 1, -1, -2, 2, 3, 7, 10, 2 ** 53 + 1, -5, 100, 2 ** 61 - 1])
     if typ == 'string':
         return rng.choice(['', 'x', 'y', 'xy', 'a b', 'q"q', 'ü', 'x', 'year', '1'])
     if typ == 'number':
         return rng.choice([decimal.Decimal('1.5'), decimal.Decimal('-2.25'), decimal.Decimal('1'), decimal.Decimal('0'),
-                           decimal.Decimal('1.50'), decimal.Decimal('10.125')])
+                           decimal.Decimal('1.50'), decimal.Decimal('10.125'), decimal.Decimal('-1'), decimal.Decimal('-2')])
     if typ == 'boolean':
         return rng.choice([True, False])
     if typ == 'date':
